@@ -137,6 +137,8 @@ use timer::{Timer, TimerTable};
 pub struct Connection {
     #[cfg(feature = "quinn_rs_quinn_verif")]
     verif_inject: verif::Inject,
+    #[cfg(feature = "quinn_rs_quinn_verif")]
+    verif_txlog: verif::TxLog,
     endpoint_config: Arc<EndpointConfig>,
     config: Arc<TransportConfig>,
     rng: StdRng,
@@ -280,6 +282,8 @@ impl Connection {
         let mut this = Self {
             #[cfg(feature = "quinn_rs_quinn_verif")]
             verif_inject: verif::Inject::default(),
+            #[cfg(feature = "quinn_rs_quinn_verif")]
+            verif_txlog: verif::TxLog::default(),
             endpoint_config,
             crypto,
             handshake_cid: loc_cid,
